@@ -370,6 +370,27 @@ class Runner:
                 return ast.copy_location(ast.Tuple(elts=list(e.args[0].elts), ctx=ast.Load()), e)
         if _is_len(e) and isinstance(e.args[0], ast.Constant) and isinstance(e.args[0].value, (bytes, str)):
             return ast.copy_location(ast.Constant(value=len(e.args[0].value)), e)
+        # dict displays: dict() / dict({..}) / {**{..}, k: v} / {..} | {..} are the display with the later entry winning
+        if isinstance(e, ast.Call) and isinstance(e.func, ast.Name) and e.func.id == "dict" and "dict" not in self.env and not e.keywords \
+                and (not e.args or (len(e.args) == 1 and isinstance(e.args[0], ast.Dict))):
+            return ast.copy_location(ast.Dict(keys=list(e.args[0].keys), values=list(e.args[0].values)) if e.args else ast.Dict(keys=[], values=[]), e)
+        if isinstance(e, ast.Dict) and any(k is None and isinstance(v, ast.Dict) and all(k2 is not None for k2 in v.keys) for k, v in zip(e.keys, e.values)):
+            d = ast.Dict(keys=[], values=[])
+            for k, v in zip(e.keys, e.values):
+                if k is None and isinstance(v, ast.Dict) and all(k2 is not None for k2 in v.keys):
+                    for k2, v2 in zip(v.keys, v.values):
+                        d = _dict_set(d, k2, v2)
+                elif k is None:
+                    d = ast.Dict(keys=d.keys + [None], values=d.values + [v])
+                else:
+                    d = _dict_set(d, k, v)
+            return ast.copy_location(d, e)
+        if isinstance(e, ast.BinOp) and isinstance(e.op, ast.BitOr) and isinstance(e.left, ast.Dict) and isinstance(e.right, ast.Dict) \
+                and all(k is not None for k in e.left.keys + e.right.keys):
+            d = e.left
+            for k, v in zip(e.right.keys, e.right.values):
+                d = _dict_set(d, k, v)
+            return ast.copy_location(d, e)
         if isinstance(e, ast.Call) and isinstance(e.func, ast.Name) and e.func.id == "getattr" and len(e.args) == 2 and not e.keywords \
                 and isinstance(e.args[1], ast.Constant) and isinstance(e.args[1].value, str) and e.args[1].value.isidentifier():
             return ast.copy_location(ast.Attribute(value=e.args[0], attr=e.args[1].value, ctx=ast.Load()), e)
@@ -1208,10 +1229,53 @@ class MapModel(Runner):
         self.where = where
 
     def new_state(self):
-        return {"had": {}, "cur": {}, "syms": {}, "nf": set(), "other": None}
+        return {"had": {}, "cur": {}, "syms": {}, "nf": set(), "other": None, "epoch": 0, "lens": {}}
 
     def is_map(self, e):
         raise NotImplementedError
+
+    # -- queries are evaluated where they are written ------------------------------------------
+    # `K in U`, `K not in U`, `U == {}`, `bool(U)`, `not U` are *values* of the moment they are evaluated at: a flag
+    # `has_k = K in U` that is tested again after `U.pop(K)` still says what it said when it was computed.  The generic
+    # runner keeps an undecided condition as an expression and decides it when it is tested; for a query on the mutable map
+    # that would read the state of the later moment.  So every boolean query on the map is decided (the path forks) as soon
+    # as it is evaluated and replaced by its truth value; the decision is recorded in path.conds like any tested
+    # condition.  `len(U)` stays symbolic, stamped with the state it was taken in: testing it after a removal is refused.
+    def _is_bool_query(self, e):
+        if isinstance(e, ast.Compare) and len(e.ops) == 1 and (self._is_U(e.left) or self._is_U(e.comparators[0])):
+            return True
+        if isinstance(e, ast.UnaryOp) and isinstance(e.op, ast.Not) and self._is_U(e.operand):
+            return True
+        if isinstance(e, ast.Call) and isinstance(e.func, ast.Name) and e.func.id == "bool" and len(e.args) == 1 and not e.keywords and self._is_U(e.args[0]):
+            return True
+        return False
+
+    def ev(self, e, bound=frozenset()):
+        out = super().ev(e, bound)
+        if bound or out is None or not isinstance(out, (ast.Compare, ast.UnaryOp, ast.Call)):
+            return out
+        if _is_len(out) and self._is_U(out.args[0]):
+            self.state["lens"][id(out)] = (self.state["epoch"], out)
+            return out
+        if self._is_bool_query(out):
+            neg = isinstance(out, ast.UnaryOp)
+            v = self.decide_map(out.operand if neg else (out.args[0] if isinstance(out, ast.Call) else out))
+            if isinstance(v, bool):
+                v = (not v) if neg else v
+                self.path.conds.append((out, v, self.nid))
+                return ast.copy_location(ast.Constant(value=v), out)
+        return out
+
+    def _removed(self, k):
+        self.state["cur"][k] = False
+        self.state["epoch"] += 1
+
+    def _check_len_epoch(self, e):
+        for x in ast.walk(e):
+            if _is_len(x) and self._is_U(x.args[0]):
+                rec = self.state["lens"].get(id(x))
+                if rec is not None and rec[1] is x and rec[0] != self.state["epoch"]:
+                    raise AnalysisError("%s tests the size of the map of unprotected fields as it was before fields were removed from it: %s" % (self.where, txt(e)[:80]))
 
     def _is_U(self, e):
         return self.is_map(e)
@@ -1250,7 +1314,7 @@ class MapModel(Runner):
                 k = self._key(e.args[0], txt(e))
                 if self.has(k):
                     if m == "pop":
-                        self.state["cur"][k] = False
+                        self._removed(k)
                     return self.field(k)
                 if len(e.args) == 2:
                     return e.args[1]
@@ -1274,7 +1338,7 @@ class MapModel(Runner):
             k = self._key(self.ev(t.slice), "del")
             if not self.has(k):
                 raise PyRaise("KeyError")
-            self.state["cur"][k] = False
+            self._removed(k)
             return True
         return False
 
@@ -1285,6 +1349,7 @@ class MapModel(Runner):
 
     def decide_map(self, e):
         """bool for a condition that is a query on the map, else None"""
+        self._check_len_epoch(e)
         if isinstance(e, ast.Compare) and len(e.ops) == 1 and isinstance(e.ops[0], (ast.In, ast.NotIn)) and self._is_U(e.comparators[0]):
             v = self.has(self._key(e.left, txt(e)))
             return v == isinstance(e.ops[0], ast.In)
